@@ -442,7 +442,7 @@ func ckksLeaf(c *engine.Chooser, scName string, cfg *ckksCfg) {
 		// nil (absent) coefficients are only usable where the library never dereferences them: in vectors (a nil entry of
 		// the coefficient vector encodes as 0) and where the Paterson-Stockmeyer split fills the hole (the irregular-hole
 		// shapes); a nil elsewhere in a single polynomial is a nil-pointer panic in the scalar MulThenAdd (not generated).
-		if nilHoles && (kind >= kVector0 || cfg.irregular) {
+		if nilHoles && (kind >= kVector0 || (cfg.irregular && bc.basis == bignum.Chebyshev)) {
 			// absent terms as nil coefficients (the leading one stays: the library dereferences Coeffs[degree])
 			bc := make([]*bignum.Complex, len(coeffs[k]))
 			for i, v := range coeffs[k] {
